@@ -255,7 +255,7 @@ Proof.
     + (* success *)
       apply HandoffProofs.word_eqb_eq in Efw.
       assert (Hz : frst f = false).
-      { destruct G as (_&_&_&_&_&_&_&_&_&_&_&_&_&_&_&GK). unfold K in GK. rewrite Ewp in GK.
+      { destruct G as (_&_&_&_&_&_&_&_&_&_&_&_&_&_&_&GK). unfold K, K0 in GK. rewrite Ewp in GK. destruct GK as [_ GK].
         destruct GK as (_&_&_&_&_&GZ&_). apply (count_zero frst (futs s) GZ i f Ef). }
       destruct f as [w p sl rg rs]; simpl in *. subst w rs.
       unfold fokb in Hokf; simpl in Hokf. destruct rg; simpl in Hokf; [rewrite andb_false_r in Hokf; discriminate|].
@@ -292,7 +292,7 @@ Proof.
     destruct (Nat.eqb_spec i i0); [subst i0|discriminate]. simpl in H.
     destruct (Bool.eqb ok (word_eqb (fw f) v)) eqn:Eok; [|discriminate]. apply eqb_prop in Eok. subst ok.
     assert (Hv : v = WC).
-    { destruct G as (_&_&_&_&_&_&_&_&_&_&_&_&_&_&_&GK). unfold K in GK. rewrite Ewp in GK. apply GK. }
+    { destruct G as (_&_&_&_&_&_&_&_&_&_&_&_&_&_&_&GK). unfold K, K0 in GK. rewrite Ewp in GK. destruct GK as [_ GK]. dests. assumption. }
     subst v.
     assert (Hpf : freg f || word_eqb (fw f) WR = true /\ frst f = false).
     { simpl in Hposf. rewrite Nat.ltb_irrefl, Nat.leb_refl in Hposf. simpl in Hposf.
